@@ -61,8 +61,11 @@ FamilyVerdict(rec) ==
       I  == DOMAIN rec.roots
       CE == TLCEval([i \in I |-> [j \in I |-> cc[rec.roots[i]] = cc[rec.roots[j]]]])
       SE == TLCEval([i \in I |-> [j \in I |-> cs[rec.roots[i]] = cs[rec.roots[j]]]])
-      mism == {p \in I \X I : \/ CE[p[1]][p[2]] # rec.canonM[p[1]][p[2]]
-                              \/ SE[p[1]][p[2]] # rec.strictM[p[1]][p[2]]}
+      \* "known": the pairs for which the generator makes a prediction at all
+      Known(i, j) == IF "known" \in DOMAIN rec THEN rec.known[i][j] ELSE TRUE
+      mism == {p \in I \X I : /\ Known(p[1], p[2])
+                              /\ \/ CE[p[1]][p[2]] # rec.canonM[p[1]][p[2]]
+                                 \/ SE[p[1]][p[2]] # rec.strictM[p[1]][p[2]]}
   IN
   IF mism # {} THEN
      PrintT(<<"V", rec.id, "machinery:spec_mismatch",
